@@ -18,7 +18,7 @@ SPEC = dict(
         "SymVerif.C04.mulTree_eq_mulNO_sym", "SymVerif.C04.mulTree_perm_sym", "SymVerif.C04.mulEO_closed_sym",
         "SymVerif.C04.mulOperandOKS_iff",
         # max / min, and / or
-        "SymVerif.C04.maxMinE_perm", "SymVerif.C04.andOr_perm", "SymVerif.C04.C04_full_false",
+        "SymVerif.C04.maxMinE_perm", "SymVerif.C04.maxMinTree_eq", "SymVerif.C04.maxMinTree_perm", "SymVerif.C04.andOr_perm", "SymVerif.C04.C04_full_false",
         # the unrestricted statement is false (model level; the same inputs fail on the real library)
         "SymVerif.C04.witness_add_sum_as_term", "SymVerif.C04.witness_mul_rad_negbase",
         "SymVerif.C04.witness_mul_rad_perfectpower", "SymVerif.C04.witness_mul_rad_gaussian",
